@@ -185,6 +185,14 @@ def parse_model(out):
 
 
 def run(ctx):
+    _orig_report, _seen = ctx.report, {}
+
+    def _capped(key, kind, name, detail, found_input=True):
+        cat = key.split(":", 1)[0]
+        _seen[cat] = _seen.get(cat, 0) + 1
+        if _seen[cat] <= 3 or ctx.is_known(key) is not None:      # at most 3 replays per category of failure
+            _orig_report(key, kind, name, detail, found_input)
+    ctx.report = _capped
     info = ctx.coq_props()
     r = vlib.rng(ctx.seed, "C26")
     n = 120 if ctx.quick else 1200
